@@ -310,14 +310,41 @@ fn model_verify(p: &Path) -> bool {
     d4_bytes(&cur) == p.root
 }
 
+/// a byte-distinct, non-canonical spelling of the same digest: one limb v < 2^32-1 written as v + p (still fits 8 bytes)
+fn p_alias(h: &[u8; 32]) -> Option<[u8; 32]> {
+    for k in 0..4 {
+        let v = u64::from_le_bytes(h[k * 8..k * 8 + 8].try_into().unwrap());
+        if v < (1u64 << 32) - 1 {
+            let mut o = *h;
+            o[k * 8..k * 8 + 8].copy_from_slice(&(v + P).to_le_bytes());
+            return Some(o);
+        }
+    }
+    None
+}
+
+/// canonical digest; `small` forces one limb below 2^32-1 so that a p-alias exists
+fn rand_hash(rng: &mut impl Rng, small: bool) -> [u8; 32] {
+    let mut d = rand_d4(rng);
+    if small {
+        d[rng.gen_range(0..4)] = f(match rng.gen_range(0..3) {
+            0 => 0,
+            1 => (1u64 << 32) - 2,
+            _ => rng.gen_range(0..(1u64 << 32) - 1),
+        });
+    }
+    d4_bytes(&d)
+}
+
 fn valid_path(rng: &mut impl Rng, depth: usize) -> (Path, Vec<[[u8; 32]; 3]>) {
-    let leaf = d4_bytes(&rand_d4(rng));
+    let small = rng.gen_bool(0.3);
+    let leaf = rand_hash(rng, small);
     let mut cur = bytes_d4(&leaf);
     let mut siblings = vec![];
     let mut unsorted = vec![];
     let mut positions = vec![];
     for _ in 0..depth {
-        let mut sibs = [d4_bytes(&rand_d4(rng)), d4_bytes(&rand_d4(rng)), d4_bytes(&rand_d4(rng))];
+        let mut sibs = [rand_hash(rng, small), d4_bytes(&rand_d4(rng)), d4_bytes(&rand_d4(rng))];
         if rng.gen_bool(0.1) {
             sibs[1] = sibs[0];
         }
@@ -357,7 +384,7 @@ pub fn run_c27(ctx: &Ctx) -> i32 {
         }
         let mut rng = ctx.sub_rng("paths", i as u64);
         let depth = match i % 20 {
-            0 => 0,
+            0 | 3 | 4 => 0,
             1 => 16,
             2 => 17,
             _ => rng.gen_range(0..=17usize),
@@ -399,6 +426,35 @@ pub fn run_c27(ctx: &Ctx) -> i32 {
         let mut c = base.clone();
         c.leaf[0..8].copy_from_slice(&P.to_le_bytes());
         cases.push(("leaf-noncanonical", c));
+        // p-aliases: the same field elements spelled non-canonically, for the root (depth 0: root = leaf, so a small limb
+        // can be forced; deeper roots only when Poseidon happens to produce one), the leaf and a sibling
+        if let Some(al) = p_alias(&base.root) {
+            let mut c = base.clone();
+            c.root = al;
+            cases.push(("root-p-alias", c));
+            if depth == 0 {
+                let mut c = base.clone();
+                c.root = al;
+                c.leaf = al;
+                cases.push(("root-and-leaf-p-alias", c));
+            }
+        }
+        if let Some(al) = p_alias(&base.leaf) {
+            let mut c = base.clone();
+            c.leaf = al;
+            cases.push(("leaf-p-alias", c));
+        }
+        if depth > 0 {
+            let l = rng.gen_range(0..depth);
+            for j in 0..3 {
+                if let Some(al) = p_alias(&base.siblings[l][j]) {
+                    let mut c = base.clone();
+                    c.siblings[l][j] = al;
+                    cases.push(("sibling-p-alias", c));
+                    break;
+                }
+            }
+        }
         let mut c = base.clone();
         c.positions.push(0);
         cases.push(("positions-long", c));
